@@ -124,6 +124,15 @@ def cases(run: Run):
             "r": [Fraction(rng.choice([1, 2, 4, 1]), rng.choice([1, 4, 16])) for _ in range(m)],
             "ys": [[Fraction(rng.randint(-40, 40), 4) for _ in range(m)] for _ in range(steps)],
         }
+        if rng.random() < 0.2 and m >= 2 and tuning in ("gamma2", "half", "kappa0"):
+            # observations in wildly different units (an angle in radians next to a range in metres): the estimate does not depend on the units
+            # a measurement is expressed in, but the stacked innovation covariance then spans 12-14 orders of magnitude
+            units = [rng.choice([Fraction(1, 10000), Fraction(1), Fraction(1000)]) for _ in range(m)]
+            if len(set(units)) > 1:
+                c["H"] = [[h * u for h in row] for row, u in zip(c["H"], units)]
+                c["r"] = [r * u * u for r, u in zip(c["r"], units)]
+                c["ys"] = [[y * u for y, u in zip(ys, units)] for ys in c["ys"]]
+                c["units"] = [str(u) for u in units]
         out.append(c)
     return out
 
